@@ -807,8 +807,26 @@ def gen_trace(rng, check, population, tier='quick'):
             conns.append(gen_conn(r, g, population, cfg))
     tr = {'world': 'A', 'check': check, 'population': population,
           'conns': conns}
+    if population in ('frag', 'sweep', 'random') and r.random() < 0.3:
+        # the peer closes a few bytes into a very large body frame
+        virt = []
+        for _ in range(r.randint(1, 4)):
+            n = r.choice([0, 1, 2, 7, 8, 9, 64, r.randint(0, 600)])
+            size = r.choice([2**31 - 1, 2**31, 2**31 + 5, 2**32 - 1,
+                             2**32 - 9, 2**24, n, n + 1, n + 7,
+                             r.randint(n, 2**32 - 1)])
+            if size < n:
+                continue
+            c = r.random()
+            have = bytes(r.getrandbits(8) for _ in range(n)) if c < 0.6 \
+                else b'\xce' * n
+            virt.append({'ch': r.choice([0, 1, 65535, r.getrandbits(16)]),
+                         'size': size, 'have': have.hex()})
+        tr['virtual'] = virt
     if r.random() < 0.15:
         tr['debug_log'] = True
+        if r.random() < 0.4:
+            tr['log_reenter'] = True   # the log handler uses pamqp itself
     if population in ('truncsweep', 'bytesweep', 'fieldsweep'):
         tr['mem_all'] = True   # enumerated faults: measure every decode
     return tr
